@@ -28,11 +28,6 @@ Lemma upd_other e v x w : w <> v -> upd e v x w = e w.
 Proof. unfold upd. destruct (var_eqb_spec w v); congruence. Qed.
 
 (* ---------- the meaning of a list of lines ---------- *)
-Definition line_kv (l : str) : option (var * str) :=
-  match split_once 61 l with
-  | Some (k, x) => match parse_name k with Some v => Some (v, x) | None => None end
-  | None => None
-  end.
 (* the values given to v, in input order: everything after the FIRST '=' *)
 Definition vals_of (v : var) (ls : list str) : list str :=
   flat_map (fun l => match line_kv l with Some (w, x) => if var_eqb w v then [x] else [] | None => [] end) ls.
@@ -227,7 +222,6 @@ Definition strs_of (x : option value) : list str :=
 Definition kv_line (v : var) (x : str) : str := vname v ++ 61 :: x.
 Definition printed_lines (e : entry) : list str :=
   flat_map (fun v => map (kv_line v) (strs_of (e v))) all_vars.
-Definition term_lines (ls : list str) : str := concat (map (fun l => l ++ [10]) ls).
 
 Lemma print_var_lines e v : print_var e v = term_lines (map (kv_line v) (strs_of (e v))).
 Proof.
@@ -404,32 +398,6 @@ Proof.
   destruct (parse_name k) eqn:P; [|discriminate]. intros [= -> ->].
   apply split_once_some in E as [-> _]. apply parse_name_inv in P as ->. reflexivity.
 Qed.
-Definition line_var (l : str) : option var := match line_kv l with Some (v, _) => Some v | None => None end.
-Definition lines_of (v : var) (ls : list str) : list str :=
-  filter (fun l => match line_var l with Some w => var_eqb w v | None => false end) ls.
-Fixpoint eql (a b : list str) : bool :=
-  match a, b with [], [] => true | x :: a', y :: b' => eqs x y && eql a' b' | _, _ => false end.
-(* the lines come grouped by variable, variables in the fixed order, and a
-   single-valued variable has at most one line *)
-Definition grouped (ls : list str) : bool :=
-  eql ls (flat_map (fun v => lines_of v ls) all_vars) &&
-  forallb (fun v => match kind_of v with KA => true | _ => Nat.leb (List.length (lines_of v ls)) 1 end) all_vars.
-(* 'VAR=value' with a known VAR; integers in the form Display prints *)
-Definition line_canon (l : str) : bool :=
-  match line_kv l with
-  | Some (v, x) => match kind_of v with
-                   | KI => match parse_i64 x with Some z => eqs (print_z z) x | None => false end
-                   | _ => true
-                   end
-  | None => false
-  end.
-Definition has_var (ls : list str) (v : var) : bool :=
-  existsb (fun l => match line_var l with Some w => var_eqb w v | None => false end) ls.
-Definition canonical_lines (ls : list str) : bool :=
-  forallb line_canon ls && grouped ls && forallb (has_var ls) required.
-(* the text is its lines, each ended by one LF (no CRLF, no missing final newline) *)
-Definition is_canonical (t : str) : bool := eqs t (term_lines (lines t)) && canonical_lines (lines t).
-
 Lemma eql_eq a : forall b, eql a b = true -> a = b.
 Proof. induction a as [|x a IH]; intros [|y b]; cbn [eql]; try discriminate; auto.
   intros H. apply andb_prop in H as [H1 H2]. apply eqs_eq in H1. f_equal; auto. Qed.
